@@ -34,6 +34,9 @@ G(n, L, T, m, smp) == [k |-> "group", n |-> n, L |-> L, T |-> T, un |-> 0, smp |
 Q(n, L, T, m, q, smp) == [k |-> "group", n |-> n, L |-> L, T |-> T, un |-> 0, smp |-> smp, m |-> m, q |-> q]
 WayMembers == {mc \in MemberChoices : mc.tgt = "way" /\ mc.role # "via"}
 
+\* long-list family entry (see LongCases below)
+LG(k, n, L, T, smp, srt) == [k |-> k, n |-> n, L |-> L, T |-> T, un |-> 0, smp |-> smp, fam |-> "long", srt |-> srt]
+
 \* all list lengths 0 .. L, one entry per length
 Lens(k, n, L, T, un) == [l \in 1 .. L + 1 |-> E(k, n, l - 1, T, un, 0)]
 
@@ -47,6 +50,8 @@ QuickPlan ==
   \o << E("way", 3, 4, 3, 0, 700), E("way", 4, 5, 3, 0, 700), E("way", 3, 5, 3, 3, 300),
         E("relation", 3, 4, 3, 0, 500), E("relation", 4, 5, 3, 0, 500) >>
   \o << G(2, 1, 2, 2, 0), Q(2, 1, 2, 1, 2, 0), Q(3, 3, 3, 2, 3, 500) >>
+  \o << LG("way", 3, 13, 3, 120, FALSE), LG("way", 4, 21, 4, 80, FALSE), LG("relation", 3, 15, 3, 120, FALSE),
+        LG("relation", 4, 32, 4, 50, FALSE), LG("way", 3, 13, 3, 80, TRUE), LG("relation", 4, 21, 4, 80, TRUE) >>
 
 ThoroughPlan ==
      << E("way", 1, 0, 2, 0, -2), E("way", 1, 1, 3, 0, -2), E("way", 2, 1, 2, 0, -2), E("way", 1, 2, 2, 0, -2),
@@ -60,6 +65,9 @@ ThoroughPlan ==
         E("relation", 4, 5, 4, 0, 10000), E("relation", 3, 4, 3, 0, 5000) >>
   \o << G(2, 0, 2, 2, 0), G(2, 1, 2, 2, 0), G(2, 2, 2, 2, 0), G(2, 1, 3, 3, 0), Q(2, 1, 2, 1, 2, 0), Q(2, 2, 2, 1, 2, 0),
         Q(1, 1, 2, 1, 3, 0), Q(3, 3, 3, 3, 3, 4000), Q(4, 4, 3, 4, 4, 2000) >>
+  \o << LG("way", 3, 13, 3, 1500, FALSE), LG("way", 4, 21, 4, 1000, FALSE), LG("relation", 3, 15, 3, 1500, FALSE),
+        LG("relation", 4, 32, 4, 800, FALSE), LG("way", 3, 13, 3, 1000, TRUE), LG("way", 4, 32, 4, 500, TRUE),
+        LG("relation", 4, 21, 4, 1000, TRUE), LG("relation", 3, 15, 3, 800, TRUE) >>
 
 CONSTANT Plan
 
@@ -78,8 +86,21 @@ Reloc(c) ==
   LET chs == c.children  ups == c.updates IN
   [c EXCEPT !.children = [j \in DOMAIN chs |-> IF Annotated(chs[j]) THEN SetLoc(chs[j], DrawLoc(j)) ELSE chs[j]],
             !.updates = [j \in DOMAIN ups |-> SetLoc(ups[j], DrawLoc(j))]]
+\* long-list family: smp stored lists of exactly L updates (13, 15, 21, 32: longer than any small-slice shortcut of a
+\* sorting or partitioning routine), every position drawn by TLC from the in-range choices (idx < n, so that
+\* Exact / Pending / Compose have something to say); srt = TRUE: the drawn list is then put into the order annotation
+\* produces (by index, then time), which makes every child's updates time ordered (Compose applies)
+LongChoice(k, n, T) == {c \in Choice(k, n, T) : c.idx < n}
+ByIndexTime(a, b) == a.idx < b.idx \/ (a.idx = b.idx /\ a.time <= b.time)
+LongList(e, i) ==
+  LET f == [j \in 1 .. e.L |-> RandomElement(LongChoice(e.k, e.n, e.T))] IN
+  IF e.srt THEN SortSeq(f, ByIndexTime) ELSE f
+LongCases(e) ==
+  {Case(e.k, ChildrenOf(e.k, e.n, 0), MkList(LongList(e, i)), RandomElement(Pairs(e.T)), e.T, DrawOwn(e.T)) : i \in 1 .. e.smp}
+
 BaseEntryCases(e) ==
-  IF e.k = "group" THEN GroupEntryCases(e)
+  IF "fam" \in DOMAIN e THEN LongCases(e)
+  ELSE IF e.k = "group" THEN GroupEntryCases(e)
   ELSE IF e.smp = -1 THEN CasesExactOwn(e.k, e.n, e.L, e.T, e.un)
   ELSE IF e.smp = 0 THEN CasesExact(e.k, e.n, e.L, e.T, e.un, DrawOwn)
   ELSE {Case(e.k, ChildrenOf(e.k, e.n, e.un), MkList(f), RandomElement(Pairs(e.T)), e.T, DrawOwn(e.T)) :
